@@ -37,7 +37,7 @@ class Run:
         self.notes = []
         self.side = {"evaluations": 0, "max_factor_ratio": 0.0, "max_residual_ratio": 0.0}
         self.families = {}
-        self.known = [k for k in vlib.load_known() if k.get("property") == prop and k.get("status") == "open"]
+        self.known = [k for k in vlib.load_known() if (k.get("property") == prop or prop in k.get("also", [])) and k.get("status") == "open"]
         self.builds = {}
         self.observers = {}
 
